@@ -3,3 +3,22 @@ add("C02", "property-based testing: generated CertificateParams -> independent R
     "Generated-input search (proptest, shrinking) over the whole CertificateParams space against a reference model evaluated on the output of an independent strict decoder; finite sub-spaces (511 KU subsets, 256 path lengths, 1536 prefix cases) are enumerated completely. Sampling elsewhere: absence of violations is not established.",
     "Trusts the harness decoder (own code, unit-tested), OpenSSL's SHA-2 and SPKI encoding of the fixture keys.",
     "DESIGN.md §4 C02")
+DEC = "Trusts the harness decoder (own code, unit-tested, independent of rcgen/yasna/x509-parser)"
+add("C01", "property-based testing with fault injection: generated artefacts x key algorithms x back ends; OpenSSL verifies the signature over the exact signed byte range; generated failure schedules for a remote signer",
+    "Generated-input search over certificates, CSRs and CRLs for every key algorithm (local and remote) under ring and aws-lc-rs; the oracle is OpenSSL's verifier over the byte range cut out by an independent DER reader plus an RFC table of AlgorithmIdentifiers. Signer faults are enumerated as generated bitmasks over call sequences. Sampling: absence is not established.",
+    DEC + "; OpenSSL EVP verification; fixture keys.", "DESIGN.md §4 C01")
+add("C04", "property-based testing: generated artefacts walked by a strict schema-aware DER validator; exhaustive sweeps of key-usage subsets, INTEGER byte patterns, CSR attribute orderings",
+    "Validity predicate (canonical DER per X.690 §10-11 and the RFC 5280 module) evaluated on generated certificates, CSRs, CRLs and SPKIs; value-dependent forms are enumerated exhaustively (511 KU subsets, 259 IsCa values, every 0/1-byte and boundary multi-byte INTEGER, 130 attribute orderings). Sampling elsewhere.",
+    DEC + ".", "DESIGN.md §4 C04")
+add("C05", "property-based testing: profile predicates over decoded artefacts; automatic serial explored over thousands of deterministically derived subject keys",
+    "Predicates for each structural MUST evaluated on generated, profile-conformant parameter sets; the key-dependent automatic serial is explored over keys derived from generated seeds (both halves of the hash-top-bit class are measured).",
+    DEC + "; OpenSSL EC arithmetic for deriving keys.", "DESIGN.md §4 C05")
+add("C07", "property-based testing: generated CSR parameters and attribute lists -> independent RFC 2986 decoder -> reference model; exhaustive refusal sweep; round trip through rcgen's parser",
+    "Reference-model comparison over generated CSRs, an exhaustive sweep of the 32 subsets of inexpressible fields (x IsCa variants x empty/non-empty name constraints), and a round-trip relation inside the parser's documented support.",
+    DEC + ".", "DESIGN.md §4 C07")
+add("C08", "property-based testing: generated CRL parameters -> independent decoder -> reference model; OpenSSL as revocation oracle; boundary-biased ordering pairs; exhaustive issuer key-usage sweep",
+    "Reference-model comparison plus an independent revocation checker (OpenSSL) asked about listed and neighbouring unlisted serials; the two refusal rules are decided by generated boundary pairs and a complete sweep of the 512 issuer key-usage sets.",
+    DEC + "; OpenSSL X509_CRL_get0_by_serial.", "DESIGN.md §4 C08")
+add("C09", "property-based testing with metamorphic relation: generated (instant, nanosecond, offset) placed in all five time fields, parsed back strictly; boundary sweeps second by second",
+    "Round trip through a strict time parser plus the metamorphic relation 'same instant at another offset gives identical bytes'; the neighbourhoods of the four boundaries are swept (every second x 41 offsets in thorough).",
+    DEC + " and its civil-calendar arithmetic.", "DESIGN.md §4 C09")
